@@ -26,6 +26,9 @@ TEMPLATES = [
     "def {n1}({n2}):\n    return {n2} + {c1}",
     "{n1} = {c1}\n{n2} = {c2}\nprint({n2})\nprint({n1})",
     "{n1} = [{c1}, {c2}]\n{n2} = {n1}[0] + {n3}",
+    "try:\n    {n1} = {n2}({c1})\nexcept ValueError:\n    {n1} = {c2}\n    print({n3})\nfinally:\n    print({n1})",
+    "def f({n1}):\n    for {n2} in {n1}:\n        if {n2} > {c1}:\n            return {n2}\n    return {c2}",
+    "{n1} = {n2}({c1}, {c2})\n{n3} = max({c1}, {c2})\nz = {n2}({c2}, {c1})",
 ]
 NAMES = ["a", "b", "ab"]
 CONSTS = ["0", "1", "2", "'s'"]
@@ -107,7 +110,8 @@ def _derive_concrete(t, n1, n2, n3, c1, c2, d, p):
     if d == 0:
         pass
     elif d == 1:
-        stmt = pat_tree.body[p % len(pat_tree.body)]
+        stmts = [n for n in ast.walk(pat_tree) if isinstance(n, ast.stmt)]      # ANY statement, also nested ones
+        stmt = stmts[p % len(stmts)]
         pat_tree = ast.Module(body=[stmt], type_ignores=[])
     elif d in (2, 3):
         ex = _exprs(pat_tree)
